@@ -313,7 +313,8 @@ fn format_line_number(
                 hyperlinks::format_osc8_file_hyperlink(absolute_path, line_number, &pad(n), config)
                     .to_string()
             }
-            None => file.to_owned(),
+            // No link can be made (e.g. the working directory is unknown): show the plain number.
+            None => pad(n),
         },
         (Some(n), _, _) => pad(n),
     }
